@@ -38,6 +38,16 @@ pub fn rx(tier: Tier, segs: usize, lens: Vec<usize>, depth: usize) -> Driver {
     Driver { name: format!("rx-{segs}seg-lens{lens:?}"), cfg, prefix: vec![], alphabet, depth, state_cap: tier.pick(400_000, 6_000_000) }
 }
 
+/// Receiving while our own direction is already closed (FIN sent and acknowledged).
+pub fn rx_halfclosed(tier: Tier, depth: usize) -> Driver {
+    let mut d = rx(tier, 2, vec![MSS], depth);
+    d.name = "rx-halfclosed".into();
+    // our FIN is acknowledged by a data packet (an ST_STATE with the next sequence number would be
+    // taken for the peer's FIN by the library's compatibility heuristic and close the connection)
+    d.prefix = vec![Act::Shutdown, Act::Deliver(Pkt::Data { off: 0, ack: AckSpec::All, wnd: WndSpec::Default })];
+    d
+}
+
 /// Receiver side with a peer that ignores the window (beyond the window, far ahead, after FIN).
 pub fn rx_rude(tier: Tier, depth: usize) -> Driver {
     let mut cfg = SoloCfg::tiny(MSS);
@@ -83,6 +93,242 @@ pub fn tx_window(tier: Tier, nagle: bool, mss: usize, depth: usize) -> Driver {
         Act::Spurious,
     ];
     Driver { name: format!("tx-window-mss{mss}-nagle{nagle}"), cfg, prefix: vec![], alphabet, depth, state_cap: tier.pick(400_000, 6_000_000) }
+}
+
+/// Retransmission discipline: loss / ACK / SACK / stale histories x timer expiries.
+pub fn rtx(tier: Tier, max_retx: usize, grown: bool, depth: usize) -> Driver {
+    let mut cfg = SoloCfg::tiny(MSS);
+    cfg.tx_init = 16 * MSS;
+    cfg.tx_max = 16 * MSS;
+    cfg.max_retx = max_retx;
+    let def = WndSpec::Default;
+    let alphabet = vec![
+        Act::Write(3 * MSS),
+        state(AckSpec::Cur, def, SackSpec::None),
+        state(AckSpec::Plus(1), def, SackSpec::None),
+        state(AckSpec::All, def, SackSpec::None),
+        state(AckSpec::Stale, def, SackSpec::None),
+        state(AckSpec::Cur, def, SackSpec::FirstN(1)),
+        state(AckSpec::Cur, def, SackSpec::Raw(vec![0b10, 0, 0, 0, 0, 0, 0, 0])),
+        state(AckSpec::Cur, def, SackSpec::AllSent),
+        Act::Tick,
+        Act::Wait(50),
+        Act::Shutdown,
+    ];
+    // a grown congestion window so that more than two segments can be in flight
+    let prefix = if grown {
+        vec![Act::Write(2 * MSS), state(AckSpec::All, def, SackSpec::None), Act::Write(4 * MSS), state(AckSpec::All, def, SackSpec::None), Act::Write(5 * MSS)]
+    } else {
+        vec![]
+    };
+    Driver { name: format!("rtx-retx{max_retx}-{}", if grown { "grown" } else { "fresh" }), cfg, prefix, alphabet, depth, state_cap: tier.pick(400_000, 6_000_000) }
+}
+
+/// Handshake / teardown from a given initial state.
+pub fn fsm(tier: Tier, name: &str, incoming: bool, prefix: Vec<Act>, wait_last_ack: bool, depth: usize) -> Driver {
+    let mut cfg = SoloCfg::tiny(MSS);
+    cfg.incoming = incoming;
+    cfg.max_retx = 2;
+    cfg.wait_last_ack = wait_last_ack;
+    cfg.inactivity_ms = 3_000;
+    let def = WndSpec::Default;
+    let alphabet = vec![
+        data(0),
+        state(AckSpec::All, def, SackSpec::None),
+        state(AckSpec::Cur, def, SackSpec::None),
+        Act::Deliver(Pkt::Fin { off: 0, ack: AckSpec::All }),
+        Act::Deliver(Pkt::Fin { off: 0, ack: AckSpec::Cur }),
+        Act::Deliver(Pkt::Fin { off: 1, ack: AckSpec::Cur }),
+        Act::Deliver(Pkt::Reset { ack: AckSpec::All }),
+        Act::Deliver(Pkt::Syn),
+        Act::Write(5),
+        Act::Shutdown,
+        Act::DropReader,
+        Act::DropWriter,
+        Act::Read(64),
+        Act::Tick,
+    ];
+    Driver { name: format!("fsm-{name}-lastack{wait_last_ack}"), cfg, prefix, alphabet, depth, state_cap: tier.pick(300_000, 5_000_000) }
+}
+
+pub fn fsm_all(tier: Tier, depth: usize) -> Vec<Driver> {
+    let def = WndSpec::Default;
+    let mut v = vec![];
+    for wla in [true, false] {
+        v.push(fsm(tier, "incoming", true, vec![], wla, depth));
+        v.push(fsm(tier, "established", false, vec![], wla, depth));
+        v.push(fsm(tier, "inflight", false, vec![Act::Write(25)], wla, depth));
+        v.push(fsm(tier, "finwait1", false, vec![Act::Shutdown], wla, depth));
+        v.push(fsm(tier, "lastack", false, vec![Act::Deliver(Pkt::Fin { off: 0, ack: AckSpec::Cur })], wla, depth));
+        v.push(fsm(tier, "finwait2", false, vec![Act::Shutdown, Act::Deliver(Pkt::Data { off: 0, ack: AckSpec::All, wnd: def })], wla, depth));
+    }
+    v
+}
+
+/// Nagle coalescing.
+pub fn nagle(tier: Tier, on: bool, depth: usize) -> Driver {
+    let mut cfg = SoloCfg::tiny(MSS);
+    cfg.nagle = on;
+    cfg.tx_init = 16 * MSS;
+    cfg.tx_max = 16 * MSS;
+    let w = |b: usize| WndSpec::Bytes(b as u32);
+    let alphabet = vec![
+        Act::Write(1),
+        Act::Write(MSS - 1),
+        Act::Write(MSS),
+        Act::Write(MSS + 1),
+        Act::Write(2 * MSS + 1),
+        state(AckSpec::All, w(MSS), SackSpec::None),
+        state(AckSpec::All, w(3 * MSS + 1), SackSpec::None),
+        state(AckSpec::Plus(1), w(1 << 20), SackSpec::None),
+        state(AckSpec::All, w(1 << 20), SackSpec::None),
+        Act::Spurious,
+        Act::Tick,
+    ];
+    Driver { name: format!("nagle-{}", if on { "on" } else { "off" }), cfg, prefix: vec![], alphabet, depth, state_cap: tier.pick(400_000, 6_000_000) }
+}
+
+/// Send buffer bound and back-pressure: tiny ring, growth, ACK schedules.
+pub fn tx_flow(tier: Tier, init: usize, max: usize, depth: usize) -> Driver {
+    let mss = 4;
+    let mut cfg = SoloCfg::tiny(mss);
+    cfg.tx_init = init;
+    cfg.tx_max = max;
+    let w = |b: usize| WndSpec::Bytes(b as u32);
+    let alphabet = vec![
+        Act::Write(1),
+        Act::Write(7),
+        Act::Write(8),
+        Act::Write(9),
+        Act::Write(40),
+        state(AckSpec::Plus(1), w(1 << 20), SackSpec::None),
+        state(AckSpec::All, w(1 << 20), SackSpec::None),
+        state(AckSpec::All, w(0), SackSpec::None),
+        state(AckSpec::Cur, w(1 << 20), SackSpec::None),
+        Act::Flush,
+        Act::Tick,
+    ];
+    Driver { name: format!("tx-flow-{init}-{max}"), cfg, prefix: vec![], alphabet, depth, state_cap: tier.pick(400_000, 6_000_000) }
+}
+
+/// Close paths: flush / shutdown / drop of either half in every order, with data in either direction.
+pub fn close(tier: Tier, depth: usize) -> Driver {
+    let cfg = SoloCfg::tiny(MSS);
+    let def = WndSpec::Default;
+    let alphabet = vec![
+        Act::Write(15),
+        data(0),
+        state(AckSpec::All, def, SackSpec::None),
+        Act::Deliver(Pkt::Fin { off: 0, ack: AckSpec::All }),
+        Act::Read(64),
+        Act::Flush,
+        Act::Shutdown,
+        Act::DropReader,
+        Act::DropWriter,
+        Act::Tick,
+        Act::Spurious,
+    ];
+    Driver { name: "close".into(), cfg, prefix: vec![], alphabet, depth, state_cap: tier.pick(400_000, 6_000_000) }
+}
+
+/// Hostile datagrams from a given initial state.
+pub fn hostile(tier: Tier, name: &str, incoming: bool, prefix: Vec<Act>, depth: usize) -> Driver {
+    let mut cfg = SoloCfg::tiny(MSS);
+    cfg.incoming = incoming;
+    cfg.rx_buf = 4 * MSS;
+    cfg.max_retx = 3;
+    let def = WndSpec::Default;
+    let mut alphabet: Vec<Act> = vec![];
+    for ack in [AckSpec::Stale, AckSpec::Cur, AckSpec::Plus(1), AckSpec::All, AckSpec::Beyond, AckSpec::Far, AckSpec::Half] {
+        alphabet.push(state(ack, def, SackSpec::None));
+    }
+    for wnd in [0u32, 1, u32::MAX] {
+        alphabet.push(state(AckSpec::Cur, WndSpec::Bytes(wnd), SackSpec::None));
+    }
+    for len in [0usize, 1, 4, 8, 9, 36] {
+        for pat in [0x00u8, 0xff, 0xaa] {
+            if len == 0 && pat != 0 {
+                continue;
+            }
+            alphabet.push(state(AckSpec::Cur, def, SackSpec::Raw(vec![pat; len])));
+        }
+    }
+    alphabet.push(state(AckSpec::Stale, def, SackSpec::Raw(vec![0xff; 8])));
+    alphabet.push(state(AckSpec::Beyond, def, SackSpec::Raw(vec![0xff; 8])));
+    for (off, len) in [(-1i32, 1usize), (0, 1), (0, MSS), (0, 16_364), (1, MSS), (3, MSS), (4, 1), (1025, MSS), (32_768, 1), (-2000, MSS)] {
+        alphabet.push(Act::Deliver(Pkt::DataLen { off, len }));
+    }
+    alphabet.push(Act::Deliver(Pkt::Fin { off: 0, ack: AckSpec::Cur }));
+    alphabet.push(Act::Deliver(Pkt::Raw { ptype: 1, seq_off: 5, ack_off: 0, wnd: 0, sack: None, payload: 0 }));
+    alphabet.push(Act::Deliver(Pkt::Raw { ptype: 1, seq_off: -3, ack_off: 700, wnd: 7, sack: Some(vec![0xff; 4]), payload: 0 }));
+    alphabet.push(Act::Deliver(Pkt::Reset { ack: AckSpec::Cur }));
+    alphabet.push(Act::Deliver(Pkt::Reset { ack: AckSpec::Far }));
+    alphabet.push(Act::Deliver(Pkt::Syn));
+    alphabet.push(Act::Deliver2(Pkt::Fin { off: 0, ack: AckSpec::All }, Pkt::Fin { off: 0, ack: AckSpec::All }));
+    alphabet.push(Act::Deliver2(Pkt::DataLen { off: 0, len: MSS }, Pkt::DataLen { off: 3, len: MSS }));
+    alphabet.push(Act::Deliver2(Pkt::Fin { off: 0, ack: AckSpec::All }, Pkt::State { ack: AckSpec::All, wnd: def, sack: SackSpec::None }));
+    // benign continuation
+    alphabet.push(Act::Read(64));
+    alphabet.push(Act::Write(5));
+    alphabet.push(Act::Shutdown);
+    alphabet.push(Act::Tick);
+    Driver { name: format!("hostile-{name}"), cfg, prefix, alphabet, depth, state_cap: tier.pick(600_000, 8_000_000) }
+}
+
+pub fn hostile_all(tier: Tier, depth: usize) -> Vec<Driver> {
+    let def = WndSpec::Default;
+    vec![
+        hostile(tier, "established", false, vec![], depth),
+        hostile(tier, "incoming", true, vec![], depth),
+        hostile(tier, "inflight", false, vec![Act::Write(2 * MSS)], depth),
+        hostile(tier, "ooo-held", false, vec![data(1), data(2)], depth),
+        hostile(
+            tier,
+            "recovery",
+            false,
+            vec![
+                Act::Write(2 * MSS),
+                state(AckSpec::All, def, SackSpec::None),
+                Act::Write(4 * MSS),
+                state(AckSpec::Cur, def, SackSpec::Raw(vec![0b111, 0, 0, 0, 0, 0, 0, 0])),
+            ],
+            depth,
+        ),
+        hostile(tier, "rto-mode", false, vec![Act::Write(2 * MSS), Act::Tick], depth),
+        hostile(tier, "finwait1", false, vec![Act::Write(5), Act::Shutdown], depth),
+        hostile(tier, "lastack", false, vec![Act::Deliver(Pkt::Fin { off: 0, ack: AckSpec::Cur })], depth),
+    ]
+}
+
+/// Path-MTU probing: link MTU > 576 so the segment size starts at 528 and probes upwards.
+pub fn mtu(tier: Tier, link_mtu: usize, path_limit: Option<usize>, emsgsize: Option<usize>, probe_retx: usize, depth: usize) -> Driver {
+    let mut cfg = SoloCfg::tiny(MSS);
+    cfg.link_mtu = link_mtu;
+    cfg.rx_buf = 64 * 1024;
+    cfg.tx_init = 64 * 1024;
+    cfg.tx_max = 64 * 1024;
+    cfg.probe_retx = probe_retx;
+    cfg.peer_lens = vec![100];
+    let def = WndSpec::Default;
+    let fit = path_limit.unwrap_or(usize::MAX);
+    let mut alphabet = vec![
+        Act::Write(3000),
+        state(AckSpec::AllFitting(fit), def, SackSpec::None),
+        state(AckSpec::Plus(1), def, SackSpec::None),
+        state(AckSpec::Cur, def, SackSpec::None),
+        Act::Tick,
+        Act::Deliver(Pkt::DataLen { off: 0, len: 100 }),
+        Act::Deliver(Pkt::DataLen { off: 0, len: 560 }),
+        Act::Deliver(Pkt::DataLen { off: 0, len: 2000 }),
+    ];
+    if path_limit.is_none() {
+        alphabet[1] = state(AckSpec::All, def, SackSpec::None);
+    }
+    let prefix = match emsgsize {
+        Some(x) => vec![Act::Emsgsize(Some(x))],
+        None => vec![],
+    };
+    Driver { name: format!("mtu-{link_mtu}-path{path_limit:?}-emsg{emsgsize:?}-retx{probe_retx}"), cfg, prefix, alphabet, depth, state_cap: tier.pick(200_000, 3_000_000) }
 }
 
 pub fn run_and_report(ctx: &Ctx, d: &Driver, out: &mut Outcome) {
